@@ -2,3 +2,4 @@
 import PtGen.EqTable
 import PtGen.Children
 import PtGen.ChildrenWitness
+import PtGen.Distribute
